@@ -19,6 +19,8 @@ def reproduce_scenario(context, scenario, *, keyword='Given'):
                     # Reproduce the table of the step (e.g. the parameters of an event), if any
                     if step.table:
                         rows = [step.table.headings] + [row.cells for row in step.table]
+                        # (a pipe inside a cell has to be written \|)
+                        rows = [[cell.replace('|', '\\|') for cell in cells] for cells in rows]
                         text += ''.join('\n| {} |'.format(' | '.join(cells)) for cells in rows)
                     context.execute_steps(text)
             return
